@@ -6,11 +6,13 @@ package main
 
 import (
 	"bytes"
+	"crypto/tls"
 	"crypto/x509"
 	"encoding/xml"
 	"errors"
 	"fmt"
 	"html"
+	"net"
 	"net/url"
 	"regexp"
 	"sort"
@@ -20,6 +22,7 @@ import (
 
 	"github.com/Cloud-Foundations/keymaster/lib/simplestorage"
 	"golang.org/x/crypto/bcrypt"
+	ber "gopkg.in/asn1-ber.v1"
 )
 
 // ---- directory ----------------------------------------------------------------
@@ -36,6 +39,7 @@ type simDirectory struct {
 	GroupSrv *simDirServer // the userinfo directory
 	Calls    int
 	GroupCalls int
+	errSeq   int
 }
 
 func newSimDirectory(w *vfWorld) *simDirectory {
@@ -104,6 +108,96 @@ func (d *simDirectory) checkPassword(u url.URL, bindDN string, bindPassword stri
 	}
 	d.w.pwBackendCall(user)
 	return valid, nil
+}
+
+// ---- the directory at the wire: lib/authutil dials, gopkg.in/ldap.v2 speaks LDAP with this server over a pipe ----
+
+// dial stands for the TLS connection to ldaps://<host>:636.
+func (d *simDirectory) dial(dl *net.Dialer, network, addr string, cfg *tls.Config) (net.Conn, error) {
+	host := addr
+	if h, _, err := net.SplitHostPort(addr); err == nil {
+		host = h
+	}
+	srv := d.Servers[host]
+	password := srv != nil // the password servers; anything else is the group / userinfo directory (connection checks only)
+	if srv == nil {
+		srv = d.GroupSrv
+	}
+	if password {
+		d.w.sched.park("dir:" + host)
+		d.Calls++
+	}
+	switch srv.Mode {
+	case "down":
+		// a dial to a dead host fails after the configured timeout
+		time.Sleep(dl.Timeout)
+		return nil, &net.OpError{Op: "dial", Net: network, Err: errSimDown}
+	case "refuse":
+		return nil, &net.OpError{Op: "dial", Net: network, Err: errors.New("sim: connection refused")}
+	case "slow":
+		time.Sleep(900 * time.Millisecond)
+	}
+	c, s := net.Pipe()
+	go d.serveLDAP(s, srv)
+	return c, nil
+}
+
+func (d *simDirectory) serveLDAP(conn net.Conn, srv *simDirServer) {
+	defer conn.Close()
+	for {
+		pkt, err := ber.ReadPacket(conn)
+		if err != nil || len(pkt.Children) < 2 {
+			return
+		}
+		msgID, _ := pkt.Children[0].Value.(int64)
+		op := pkt.Children[1]
+		reply := func(tag ber.Tag, code int64, msg string) {
+			resp := ber.Encode(ber.ClassUniversal, ber.TypeConstructed, ber.TagSequence, nil, "LDAP Response")
+			resp.AppendChild(ber.NewInteger(ber.ClassUniversal, ber.TypePrimitive, ber.TagInteger, msgID, "MessageID"))
+			body := ber.Encode(ber.ClassApplication, ber.TypeConstructed, tag, nil, "Response")
+			body.AppendChild(ber.NewInteger(ber.ClassUniversal, ber.TypePrimitive, ber.TagEnumerated, code, "resultCode"))
+			body.AppendChild(ber.NewString(ber.ClassUniversal, ber.TypePrimitive, ber.TagOctetString, "", "matchedDN"))
+			body.AppendChild(ber.NewString(ber.ClassUniversal, ber.TypePrimitive, ber.TagOctetString, msg, "diagnosticMessage"))
+			resp.AppendChild(body)
+			conn.Write(resp.Bytes())
+		}
+		switch op.Tag {
+		case 0: // BindRequest: version, name, simple password
+			if len(op.Children) < 3 {
+				reply(1, 2, "protocol error")
+				continue
+			}
+			bindDN, _ := op.Children[1].Value.(string)
+			bindPassword := op.Children[2].Data.String()
+			if srv.Mode == "error" {
+				// the server is there but cannot decide: busy / unavailable / other
+				d.errSeq++
+				codes := []int64{80, 52, 51, 53}
+				reply(1, codes[d.errSeq%len(codes)], "sim: directory cannot process the request")
+				d.w.probe("dir-answered-non-credential-error")
+				continue
+			}
+			user := uidFromBindDN(bindDN)
+			pw, ok := d.Password[user]
+			valid := ok && bindPassword != "" && pw == bindPassword
+			if ctx := d.w.reqCtx(); ctx != nil {
+				ctx.pwChecks = append(ctx.pwChecks, vfPwCheck{User: user, OK: valid})
+				ctx.dirAnswered = true
+			}
+			d.w.pwBackendCall(user)
+			if valid {
+				reply(1, 0, "")
+			} else {
+				reply(1, 49, "sim: wrong password")
+			}
+		case 2: // UnbindRequest
+			return
+		case 3: // SearchRequest: nothing to find here
+			reply(5, 0, "")
+		default:
+			reply(24, 2, "unsupported operation") // ExtendedResponse, protocolError
+		}
+	}
 }
 
 func (d *simDirectory) checkConnection(u url.URL, timeoutSecs uint, rootCAs *x509.CertPool) error {
